@@ -27,7 +27,7 @@ from pathlib import Path
 import vlib
 
 CLANG = "clang++-14"
-VERSION = "12"          # bump to invalidate the cache when the extraction logic changes
+VERSION = "13"          # bump to invalidate the cache when the extraction logic changes
 
 # ---------------------------------------------------------------------------------------------------- reviewed lists
 # functions that make up the reset path of the engine.  Everything these functions call on `this` must be either in
@@ -690,6 +690,27 @@ def reach(M, start):
     return seen
 
 
+SUMKEYS = ("resets", "writes", "calls", "mcalls", "frees", "allocs", "top_resets", "top_mcalls")
+
+
+def inlined(M, fn, stop=()):
+    """summary of method `fn` with the bodies of the helpers of the same class it calls inlined (transitively, not into
+    the functions named in `stop`); calls into other objects (E:…) stay calls.  A refactoring that moves statements into a
+    private helper therefore leaves the facts unchanged."""
+    out = {k: set() for k in SUMKEYS}
+    seen, st = set(), [fn]
+    while st:
+        n = st.pop()
+        if n in seen or n not in M:
+            continue
+        seen.add(n)
+        for k in SUMKEYS:
+            out[k] |= set(M[n].get(k) or [])
+        st += [c for c in M[n]["calls"] if not c.startswith("E:") and c not in stop]
+    out["inlined"] = sorted(seen - {fn})
+    return out
+
+
 def analyse(res, errors):
     fields, types, M = merged(res, "Phreeqc")
     wf, wt, WM = merged(res, "IPhreeqc")
@@ -713,7 +734,7 @@ def analyse(res, errors):
     def ids(paths):
         return sorted({idx[p] for p in paths if p in idx})
 
-    unknown = []
+    unknown, auto_followed = [], []
     A, C = set(), set()
     allowed = set(RESET_INIT + RESET_CLEAN)
     for grp, acc in ((RESET_INIT, A), (RESET_CLEAN, C)):
@@ -723,11 +744,18 @@ def analyse(res, errors):
                 continue
             acc |= M[fn]["resets"]
             for c in M[fn]["calls"]:
-                if c not in allowed and c not in RESET_IGNORED:
+                if c in allowed or c in RESET_IGNORED:
+                    continue
+                if c in M:
+                    # a helper of the class that is not in the reviewed lists: its own reset-form statements are read one level deep
+                    # (counting fewer resets can only break an obligation, never satisfy one)
+                    acc |= M[c]["resets"]
+                    auto_followed.append(f"{fn} -> {c}")
+                else:
                     unknown.append(f"{fn} -> {c}")
     # UnLoadDatabase: engine members it resets itself
     U = set()
-    un = WM.get("UnLoadDatabase")
+    un = inlined(WM, "UnLoadDatabase") if "UnLoadDatabase" in WM else None
     wrapper = {}
     if not un:
         errs.append("IPhreeqc::UnLoadDatabase not found")
@@ -770,8 +798,7 @@ def analyse(res, errors):
     # wrapper
     wnames = [f[0] for f in wf] + ["io." + f[0] for f in iof]
     w_unload = set(un["resets"]) | {m.split("->")[0] for m in un["mcalls"] if m.endswith("->Clear")}
-    if "ClearAccumulatedLines" in un["calls"]:
-        w_unload |= set((WM.get("ClearAccumulatedLines") or {}).get("writes", []))
+    w_unload |= {p for h in un.get("inlined", []) for p in WM[h]["writes"] if h == "ClearAccumulatedLines"}   # erase() is not a reset form
     w_unload = {("io." + p if p in [f[0] for f in iof] else p) for p in w_unload if not p.startswith("E:")} | Uio
     w_unload_writes = {("io." + p if p in [f[0] for f in iof] else p) for p in un["writes"] if not p.startswith("E:")} | w_unload
     percall = set()
@@ -779,8 +806,18 @@ def analyse(res, errors):
         if fn not in WM:
             errs.append(f"IPhreeqc::{fn} not found")
             continue
-        percall |= set(WM[fn]["resets"]) | set(WM[fn]["writes"])
+        sm = inlined(WM, fn)
+        percall |= sm["resets"] | sm["writes"]
     percall = {("io." + p if p in [f[0] for f in iof] else p) for p in percall if not p.startswith("E:")}
+    # shape of the load path (facts over bodies with helpers inlined; robust against renaming locals / extracting helpers)
+    shape = []
+    stop = ("load_db", "load_db_str", "test_db", "UnLoadDatabase", "RunString")
+    for fn in ("LoadDatabase", "LoadDatabaseString", "load_db", "load_db_str", "test_db"):
+        if fn not in WM:
+            errs.append(f"IPhreeqc::{fn} not found")
+            continue
+        sm = inlined(WM, fn, stop=[x for x in stop if x != fn])
+        shape += [(fn, "calls:" + c) for c in sorted(sm["calls"])] + [(fn, "resets:" + r) for r in sorted(sm["resets"]) if not r.startswith("E:")]
     ctor = WM.get("<ctor>", dict(resets=set()))
     keys = known_keys()
     known = set()
@@ -789,7 +826,7 @@ def analyse(res, errors):
     pol = policy()
     return dict(pol=pol, names=names, idx=idx, parent=parent, top=top, subs=subs, A=A, C=C, U=U, S=S, W=Wset, R=R, unknown=sorted(set(unknown)),
                 errors=errs, Wio=Wio, Sio=Sio, Uio=Uio, wnames=wnames, w_unload=w_unload, w_unload_writes=w_unload_writes,
-                percall=percall, ctor=set(ctor["resets"]), known=known, keys=keys, M=M, WM=WM, types=types, fields=fields)
+                percall=percall, ctor=set(ctor["resets"]), shape=shape, auto_followed=auto_followed, un_inlined=un.get("inlined", []), known=known, keys=keys, M=M, WM=WM, types=types, fields=fields)
 
 
 def spec_holds(a, member, spec):
@@ -936,6 +973,9 @@ def emit_lean(a):
     L.append(f"/-- wrapper members IPhreeqc::UnLoadDatabase resets (assignment, .clear(), Reporter->Clear()) -/\ndef wrapperUnloadResets : List String :=\n  {str_list(sorted(a['w_unload']))}\n")
     L.append(f"/-- wrapper members IPhreeqc::UnLoadDatabase writes in any way -/\ndef wrapperUnloadWrites : List String :=\n  {str_list(sorted(a['w_unload_writes']))}\n")
     L.append(f"/-- wrapper members written by check_database / update_errors / close_output_files (run by every Run*) -/\ndef wrapperPerCall : List String :=\n  {str_list(sorted(a['percall']))}\n")
+    L.append("/-- (function of class IPhreeqc, fact) for the load path, helpers of the class inlined: calls:<callee> | resets:<member> -/")
+    L.append("def loadShape : List (String × String) :=\n  [" + ",\n   ".join(f"({lean_str(f)}, {lean_str(x)})" for f, x in a["shape"]) + "]\n")
+    L.append(f"/-- helpers whose bodies were read in place of a call (evidence only) -/\ndef inlinedHelpers : List String := {str_list(sorted(set(a['auto_followed']) | {'UnLoadDatabase -> ' + h for h in a['un_inlined']}))}\n")
     L.append("end PhreeqcVerif.Gen.Members")
     return "\n".join(L) + "\n"
 
@@ -954,7 +994,7 @@ def generate(ctx=None):
                 dumped_members=len(dumped), not_dumped=skipped, lean_changed=changed,
                 io_flags=dict(readers=sorted(a["Wio"]), prologue=sorted(a["Sio"]), unload=sorted(a["Uio"])),
                 wrapper_fields=len(a["wnames"]), known_keys=sorted(a["keys"]),
-                policy_evidence_missing=a.get("policy_evidence_missing", []))
+                policy_evidence_missing=a.get("policy_evidence_missing", []), auto_followed=a["auto_followed"], unload_inlined=a["un_inlined"])
     if ctx is not None:
         ctx.log("gen_members:", {k: info[k] for k in ("members", "init_assigned", "cleaned", "reader_written", "uncovered_readers", "unaccounted",
                                                       "unknown_reset_callees", "translator_errors", "tus_cached")})
